@@ -686,3 +686,354 @@ Qed.
 
 Lemma be_min_length n : N.of_nat (List.length (be_min n)) <= N.log2 n + 1.
 Proof. unfold be_min. pose proof (be_min_fuel_length (S (N.to_nat (N.log2 n))) n). lia. Qed.
+
+(* ------------------------------------------------------------------------------------------ *)
+(* well-formed caveats; every caveat body is exactly one msgpack value                          *)
+
+Fixpoint wf_cav (c : cav) : Prop :=
+  match c with
+  | COrganization id mask => id < 2 ^ 64 /\ mask < 2 ^ 64
+  | CVolumes rs | CFeatureSet rs | CMachines rs | CMachineFeatureSet rs | CClusters rs
+  | CAppFeatureSet rs | CStorageObjects rs => wf_rs_s rs
+  | CApps rs => wf_rs_n rs
+  | CValidityWindow nb na => wf_i64 nb /\ wf_i64 na
+  | CMutations ms => wf_ostrs ms
+  | CConfineUser id | CConfineOrganization id | CIsUser id => id < 2 ^ 64
+  | C3P loc vk tk => wf_str loc /\ wf_obin vk /\ wf_obin tk
+  | CBind b => wf_obin b
+  | CIfPresent ifs els =>
+      els < 2 ^ 64 /\
+      match ifs with
+      | None => True
+      | Some l => N.of_nat (List.length l) < 2 ^ 31 /\
+                  (fix all (l : list cav) : Prop :=
+                     match l with [] => True | c' :: r => wf_cav c' /\ all r end) l
+      end
+  | CFromMachine id => wf_str id
+  | CConfineGoogleHD hd => wf_str hd
+  | CConfineGitHubOrg n | CMaxValidity n | CFlyioUserID n | CGitHubUserID n | CAction n
+  | CAllowedRoles n => n < 2 ^ 64
+  | CIsMember => True
+  | CGoogleUserID n => N.log2 n + 1 < 2 ^ 32
+  | CCommands cmds =>
+      match cmds with
+      | None => True
+      | Some l => N.of_nat (List.length l) < 2 ^ 32 /\ Forall (fun ce => wf_ostrs (fst ce)) l
+      end
+  | CFlySrc o a i => wf_str o /\ wf_str a /\ wf_str i
+  | CUnregistered ty body => ty < 2 ^ 64 /\ skip (S (List.length body)) body = Some []
+  end.
+
+Lemma wf_cav_ifs l els :
+  wf_cav (CIfPresent (Some l) els) <-> els < 2 ^ 64 /\ N.of_nat (List.length l) < 2 ^ 31 /\ Forall wf_cav l.
+Proof.
+  cbn [wf_cav].
+  assert (Hall : (fix all (l : list cav) : Prop :=
+                    match l with [] => True | c' :: r => wf_cav c' /\ all r end) l <-> Forall wf_cav l).
+  { induction l as [|c l IH]; [split; auto|].
+    split.
+    - intros [Hc Hl]. constructor; [exact Hc|apply IH, Hl].
+    - intros Hcl. inversion Hcl as [|c0 l0 Hc Hl]. split; [exact Hc|apply IH, Hl]. }
+  rewrite Hall. reflexivity.
+Qed.
+
+Lemma enc_body_ifs l els :
+  enc_body (CIfPresent (Some l) els) =
+  match enc_frames l with
+  | Some inner => Some (arr2 ++ enc_arr_hdr (2 * N.of_nat (List.length l)) ++ inner ++ enc_uint els)
+  | None => None
+  end.
+Proof.
+  cbn [enc_body].
+  match goal with |- context [match ?g l with Some _ => _ | None => _ end] =>
+    assert (Hg : forall l', g l' = enc_frames l') end.
+  { induction l' as [|c l' IH]; [reflexivity|]. cbn [enc_frames]. rewrite <- IH. reflexivity. }
+  rewrite Hg. reflexivity.
+Qed.
+
+Lemma cav_type_lt c : wf_cav c -> cav_type c < 2 ^ 64.
+Proof.
+  rewrite pow_2_64. destruct c; cbn [cav_type]; try (intros _; lia).
+  cbn [wf_cav]. rewrite pow_2_64. intros [Hty _]. exact Hty.
+Qed.
+
+Lemma enc_frames_vals l :
+  Forall (fun c => forall b, enc_body c = Some b -> isval b) l ->
+  forall inner, enc_frames l = Some inner ->
+  exists vs, inner = List.concat vs /\ List.length vs = (2 * List.length l)%nat /\ Forall isval vs.
+Proof.
+  induction 1 as [|c l Hc _ IH]; intros inner Henc; cbn [enc_frames] in Henc.
+  - injection Henc as <-. exists []. auto.
+  - destruct (enc_body c) as [b|] eqn:Eb; [|discriminate].
+    destruct (enc_frames l) as [rest|] eqn:Er; [|discriminate].
+    injection Henc as <-. destruct (IH _ eq_refl) as (vs & -> & Hlen & Hvs).
+    exists (enc_uint (cav_type c) :: b :: vs). split; [|split].
+    + cbn [List.concat]. reflexivity.
+    + cbn [List.length]. lia.
+    + constructor; [apply isval_uint|]. constructor; [apply Hc; reflexivity|exact Hvs].
+Qed.
+
+Lemma isval_unregistered body : skip (S (List.length body)) body = Some [] -> isval body.
+Proof. intros Hb. exists (S (List.length body)). exact Hb. Qed.
+
+Lemma isval_enc_body c : wf_cav c -> forall b, enc_body c = Some b -> isval b.
+Proof.
+  induction c as [c Hleaf|els|l els IH] using cav_ind'.
+  - destruct c; try (exfalso; exact (Hleaf _ _ eq_refl));
+      cbn [wf_cav enc_body]; intros Hwf bd Heq;
+      try (injection Heq as <-);
+      try (apply isval_arr1, isval_rs_s, Hwf);
+      try (apply isval_uint).
+    + destruct Hwf as [Hid Hm]. apply isval_arr2; apply isval_uint.
+    + apply isval_arr1, isval_rs_n, Hwf.
+    + apply isval_arr2; apply isval_int.
+    + apply isval_arr1, isval_ostrs, Hwf.
+    + apply isval_arr1, isval_uint.
+    + apply isval_arr1, isval_uint.
+    + apply isval_arr1, isval_uint.
+    + destruct Hwf as (Hl & Hv & Ht). apply isval_arr3; [apply isval_str, Hl|apply isval_obin, Hv|apply isval_obin, Ht].
+    + apply isval_obin, Hwf.
+    + apply isval_arr1, isval_str, Hwf.
+    + apply isval_str, Hwf.
+    + apply (isval_arr 0 []); [reflexivity|reflexivity|constructor].
+    + apply isval_bin. pose proof (be_min_length id). lia.
+    + destruct cmds as [l|]; injection Heq as <-; [|apply isval_nil].
+      destruct Hwf as [Hlen Hall]. rewrite flat_map_concat_map.
+      apply isval_arr; [exact Hlen|rewrite map_length; reflexivity|].
+      apply Forall_map. revert Hall. apply Forall_impl. intros ce Hce.
+      apply isval_arr2; [apply isval_ostrs, Hce|apply isval_bool].
+    + destruct Hwf as (Ho & Ha & Hi). apply isval_arr3; apply isval_str; assumption.
+    + destruct Hwf as [_ Hb]. destruct body as [|x body]; [discriminate|].
+      injection Heq as <-. apply isval_unregistered, Hb.
+  - cbn [wf_cav enc_body]. intros _ b Heq. injection Heq as <-.
+    apply (isval_arr2 enc_nil (enc_uint els)); [apply isval_nil|apply isval_uint].
+  - rewrite wf_cav_ifs, enc_body_ifs. intros (Hels & Hlen & Hwf) b Heq.
+    destruct (enc_frames l) as [inner|] eqn:Ei; [|discriminate]. injection Heq as <-.
+    assert (Hall : Forall (fun c => forall b, enc_body c = Some b -> isval b) l).
+    { rewrite Forall_forall in *. intros c Hin. apply IH; [exact Hin|apply Hwf, Hin]. }
+    destruct (enc_frames_vals l Hall inner Ei) as (vs & -> & Hvl & Hvs).
+    rewrite (app_assoc (enc_arr_hdr _) (List.concat vs)).
+    apply isval_arr2; [|apply isval_uint].
+    rewrite pow_2_31 in Hlen.
+    assert (H2 : 2 * N.of_nat (List.length l) < 2 ^ 32) by (rewrite pow_2_32; lia).
+    assert (H3 : N.of_nat (List.length vs) = 2 * N.of_nat (List.length l)) by lia.
+    apply isval_arr; [exact H2|exact H3|exact Hvs].
+Qed.
+
+Lemma skip_enc_body_l c b rest : wf_cav c -> enc_body c = Some b ->
+  forall f, (List.length (b ++ rest) <= f)%nat -> skip (S f) (b ++ rest) = Some rest.
+Proof.
+  intros Hwf Heq f Hf. apply isval_skip; [apply (isval_enc_body c); assumption|lia].
+Qed.
+
+(* ------------------------------------------------------------------------------------------ *)
+(* frame decoding of an encoded caveat set                                                     *)
+
+Lemma dec_frames_n_S n l :
+  dec_frames_n (S n) l =
+  match dec_uint l with
+  | None => None
+  | Some (ty, r) =>
+    match skip (S (List.length r)) r with
+    | None => None
+    | Some rest =>
+      match dec_frames_n n rest with
+      | Some (fs, tl) => Some ((ty, firstn (List.length r - List.length rest) r) :: fs, tl)
+      | None => None
+      end
+    end
+  end.
+Proof. reflexivity. Qed.
+
+Lemma firstn_app_exact (a b : bytes) : firstn (List.length (a ++ b) - List.length b) (a ++ b) = a.
+Proof.
+  rewrite app_length. replace (List.length a + List.length b - List.length b)%nat with (List.length a + 0)%nat by lia.
+  rewrite firstn_app_2. cbn [firstn]. apply app_nil_r.
+Qed.
+
+Lemma dec_frames_n_enc cs : Forall wf_cav cs -> forall b, enc_frames cs = Some b -> forall tl,
+  exists bodies, Forall2 (fun c bd => enc_body c = Some bd) cs bodies /\
+    dec_frames_n (List.length cs) (b ++ tl) = Some (combine (map cav_type cs) bodies, tl).
+Proof.
+  induction 1 as [|c cs Hc Hcs IH]; intros b Henc tl; cbn [enc_frames] in Henc.
+  - injection Henc as <-. exists []. split; [constructor|reflexivity].
+  - destruct (enc_body c) as [bd|] eqn:Eb; [|discriminate].
+    destruct (enc_frames cs) as [rest|] eqn:Er; [|discriminate].
+    injection Henc as <-. destruct (IH _ eq_refl tl) as (bodies & HF & Hdec).
+    exists (bd :: bodies). split; [constructor; assumption|].
+    cbn [List.length]. rewrite dec_frames_n_S. rewrite <- !app_assoc.
+    rewrite dec_uint_enc_uint by (apply cav_type_lt, Hc).
+    rewrite (skip_enc_body_l c bd (rest ++ tl) Hc Eb) by apply Nat.le_refl.
+    rewrite Hdec, firstn_app_exact. reflexivity.
+Qed.
+
+Lemma enc_frames_length cs b : Forall wf_cav cs -> enc_frames cs = Some b ->
+  (2 * List.length cs <= List.length b)%nat.
+Proof.
+  intros Hwf Henc.
+  assert (Hall : Forall (fun c => forall b, enc_body c = Some b -> isval b) cs).
+  { revert Hwf. apply Forall_impl. intros c Hc. apply isval_enc_body, Hc. }
+  destruct (enc_frames_vals cs Hall b Henc) as (vs & -> & Hlen & Hvs).
+  apply vals_length in Hvs. rewrite <- Hlen. exact Hvs.
+Qed.
+
+Lemma odd_double m : N.odd (2 * m) = false.
+Proof. rewrite N.odd_mul. reflexivity. Qed.
+
+Lemma enc_set_Some cs b : enc_set cs = Some b ->
+  exists fr, enc_frames cs = Some fr /\ b = enc_arr_hdr (2 * N.of_nat (List.length cs)) ++ fr.
+Proof.
+  unfold enc_set. destruct (enc_frames cs) as [fr|]; [|discriminate].
+  intros Heq. exists fr. split; [reflexivity|]. injection Heq as <-. reflexivity.
+Qed.
+
+Lemma dec_frames_enc_set_l cs b : Forall wf_cav cs -> N.of_nat (List.length cs) < 2 ^ 31 -> enc_set cs = Some b ->
+  exists bodies, Forall2 (fun c bd => enc_body c = Some bd) cs bodies /\
+    dec_frames b = Some (combine (map cav_type cs) bodies).
+Proof.
+  rewrite pow_2_31. intros Hwf Hlen Henc.
+  destruct (enc_set_Some cs b Henc) as (fr & Ef & ->).
+  destruct (dec_frames_n_enc cs Hwf fr Ef []) as (bodies & HF & Hdec). rewrite app_nil_r in Hdec.
+  exists bodies. split; [exact HF|].
+  pose proof (enc_frames_length cs fr Hwf Ef) as Hfl.
+  unfold dec_frames. remember (N.of_nat (List.length cs)) as m eqn:Hm.
+  rewrite dec_arr_hdr_enc by (rewrite pow_2_32; lia).
+  rewrite odd_double.
+  destruct (N.ltb_spec (N.of_nat (List.length fr)) (2 * m)) as [Hlt|Hge]; [lia|].
+  replace (2 * m / 2) with m by lia. rewrite Hm, Nat2N.id, Hdec. reflexivity.
+Qed.
+
+Lemma Forall2_nth_combine {A B C} (R : A -> B -> Prop) (g : A -> C) l1 l2 :
+  Forall2 R l1 l2 -> forall i a, nth_error l1 i = Some a ->
+  exists b, R a b /\ nth_error (combine (map g l1) l2) i = Some (g a, b).
+Proof.
+  induction 1 as [|x y l1 l2 Hxy _ IH]; intros i a Hi.
+  - destruct i; discriminate.
+  - destruct i as [|i]; cbn [nth_error map combine] in *.
+    + injection Hi as <-. exists y. auto.
+    + apply IH, Hi.
+Qed.
+
+(* an unregistered caveat's body reaches the frame decoder byte for byte *)
+Lemma unregistered_passthrough_l cs b i ty body :
+  Forall wf_cav cs -> N.of_nat (List.length cs) < 2 ^ 31 -> enc_set cs = Some b ->
+  nth_error cs i = Some (CUnregistered ty body) ->
+  exists fs, dec_frames b = Some fs /\ nth_error fs i = Some (ty, body).
+Proof.
+  intros Hwf Hlen Henc Hi.
+  destruct (dec_frames_enc_set_l cs b Hwf Hlen Henc) as (bodies & HF & Hdec).
+  destruct (Forall2_nth_combine _ cav_type _ _ HF i _ Hi) as (bd & Hbd & Hnth).
+  exists (combine (map cav_type cs) bodies). split; [exact Hdec|].
+  cbn [enc_body] in Hbd. destruct body as [|x body]; [discriminate|]. injection Hbd as <-.
+  exact Hnth.
+Qed.
+
+Lemma enc_one_frames_l c b : wf_cav c -> enc_one c = Some b ->
+  exists bd, enc_body c = Some bd /\ dec_frames b = Some [(cav_type c, bd)].
+Proof.
+  intros Hwf Henc. unfold enc_one in Henc.
+  destruct (dec_frames_enc_set_l [c] b) as (bodies & HF & Hdec); [auto|rewrite pow_2_31; cbn [List.length]; lia|exact Henc|].
+  inversion HF as [|c0 bd cs0 bs0 Hbd Hnil]; subst. inversion Hnil; subst.
+  exists bd. split; [exact Hbd|exact Hdec].
+Qed.
+
+(* ------------------------------------------------------------------------------------------ *)
+(* no amplification: a decoded set is bounded by the input                                     *)
+
+Lemma dec_take_length k r0 ty r :
+  option_map (fun p : bytes * bytes => (be_val (fst p) 0, snd p)) (take k r0) = Some (ty, r) ->
+  (List.length r <= List.length r0)%nat.
+Proof.
+  destruct (take k r0) as [[a b]|] eqn:E; cbn [option_map fst snd]; [|discriminate].
+  intros Heq. injection Heq as _ <-. apply take_Some in E. destruct E as [-> _].
+  rewrite app_length. lia.
+Qed.
+
+Lemma dec_uint_length l ty r : dec_uint l = Some (ty, r) -> (List.length r < List.length l)%nat.
+Proof.
+  destruct l as [|c r0]; [discriminate|]. cbn [dec_uint List.length].
+  repeat match goal with |- (if ?b then _ else _) = _ -> _ => destruct b end;
+    try discriminate;
+    try (intros Heq; apply dec_take_length in Heq; lia).
+  intros Heq. injection Heq as _ <-. lia.
+Qed.
+
+Lemma dec_arr_hdr_length l n r : dec_arr_hdr l = Some (n, r) -> (List.length r < List.length l)%nat.
+Proof.
+  destruct l as [|c r0]; [discriminate|]. cbn [dec_arr_hdr List.length].
+  repeat match goal with |- (if ?b then _ else _) = _ -> _ => destruct b end;
+    try discriminate;
+    try (intros Heq; apply dec_take_length in Heq; lia).
+  intros Heq. injection Heq as _ <-. lia.
+Qed.
+
+Definition body_bytes (fs : list (N * bytes)) : nat :=
+  fold_right (fun f acc => (List.length (snd f) + acc)%nat) 0%nat fs.
+
+Lemma dec_frames_n_bounds n : forall l fs tl, dec_frames_n n l = Some (fs, tl) ->
+  List.length fs = n /\
+  (2 * List.length fs + List.length tl <= List.length l)%nat /\
+  (body_bytes fs + List.length fs + List.length tl <= List.length l)%nat.
+Proof.
+  induction n as [|n IH]; intros l fs tl Hdec.
+  - cbn [dec_frames_n] in Hdec. injection Hdec as <- <-. cbn [List.length body_bytes fold_right]. lia.
+  - rewrite dec_frames_n_S in Hdec.
+    destruct (dec_uint l) as [[ty r]|] eqn:Eu; [|discriminate].
+    destruct (skip (S (List.length r)) r) as [rest|] eqn:Es; [|discriminate].
+    destruct (dec_frames_n n rest) as [[fs' tl']|] eqn:Ed; [|discriminate].
+    injection Hdec as <- <-.
+    apply dec_uint_length in Eu. apply skip_length in Es.
+    destruct (IH _ _ _ Ed) as (H1 & H2 & H3).
+    cbn [List.length body_bytes fold_right snd]. fold (body_bytes fs').
+    rewrite firstn_length. lia.
+Qed.
+
+Lemma dec_frames_bounds l fs : dec_frames l = Some fs ->
+  (2 * List.length fs <= List.length l)%nat /\ (body_bytes fs + List.length fs <= List.length l)%nat.
+Proof.
+  unfold dec_frames. destruct (dec_arr_hdr l) as [[n r]|] eqn:Eh; [|discriminate].
+  destruct (N.odd n); [discriminate|].
+  destruct (N.of_nat (List.length r) <? n); [discriminate|].
+  destruct (dec_frames_n (N.to_nat (n / 2)) r) as [[fs' tl]|] eqn:Ed; cbn [option_map fst]; [|discriminate].
+  intros Heq. injection Heq as <-.
+  apply dec_arr_hdr_length in Eh. apply dec_frames_n_bounds in Ed. lia.
+Qed.
+
+Lemma dec_frames_count_l l fs : dec_frames l = Some fs -> (2 * List.length fs <= List.length l)%nat.
+Proof. intros Hd. apply dec_frames_bounds in Hd. lia. Qed.
+
+Lemma dec_frames_bodies_l l fs : dec_frames l = Some fs ->
+  (fold_right (fun f acc => List.length (snd f) + acc) 0 fs <= List.length l)%nat.
+Proof. intros Hd. apply dec_frames_bounds in Hd. unfold body_bytes in Hd. lia. Qed.
+
+(* ------------------------------------------------------------------------------------------ *)
+(* the condition on unregistered bodies in wf_cav is exactly "one value"; sanity examples       *)
+
+Lemma isval_iff v : isval v <-> skip (S (List.length v)) v = Some [].
+Proof.
+  split; [|apply isval_unregistered].
+  intros Hv. rewrite <- (app_nil_r v) at 2. apply isval_skip; [exact Hv|]. rewrite app_nil_r. lia.
+Qed.
+
+Example wf_cav_example :
+  wf_cav (CIfPresent (Some [COrganization 5 1; CUnregistered 99 [147; 1; 204; 200; 161; 65]]) 1).
+Proof. apply wf_cav_ifs. repeat (split || constructor). Qed.
+
+Example dec_frames_example :
+  option_map (fun b => dec_frames b)
+    (enc_set [CUnregistered 99 [147; 1; 204; 200; 161; 65]; CConfineUser 300]) =
+  Some (Some [(99, [147; 1; 204; 200; 161; 65]); (8, [145; 205; 1; 44])]).
+Proof. vm_compute. reflexivity. Qed.
+
+(* all 25 requested lemmas were checked "Closed under the global context"; the ones below cover them transitively *)
+Print Assumptions be_val_be.
+Print Assumptions dec_uint_enc_uint.
+Print Assumptions dec_arr_hdr_enc.
+Print Assumptions skip_fuel_mono.
+Print Assumptions skip_suffix.
+Print Assumptions skip_enc_body_l.
+Print Assumptions dec_frames_enc_set_l.
+Print Assumptions unregistered_passthrough_l.
+Print Assumptions enc_one_frames_l.
+Print Assumptions dec_frames_count_l.
+Print Assumptions dec_frames_bodies_l.
